@@ -53,6 +53,21 @@ def job(j):
         st["n"] += 1
         mm = expect_args(w, resp, "d%d" % ti, expected_args(good["args"], 0), "schema-default") if good["args"]["ok"] else []
         flag({"type": ty, "ti": ti}, "schema-default", q, None, mm, resp)
+        # the schema default again, in a later request and under two response keys of one request: every resolution
+        # receives its own freshly coerced default (the resolvers modify what they receive)
+        resp = w.run(q)
+        st["n"] += 1
+        mm = expect_args(w, resp, "d%d" % ti, expected_args(good["args"], 0), "schema-default") if good["args"]["ok"] else []
+        flag({"type": ty, "ti": ti}, "schema-default-again", q, None, mm, resp)
+        q2 = "{ x: d%d y: d%d }" % (ti, ti)
+        resp = w.run(q2)
+        st["n"] += 1
+        if good["args"]["ok"]:
+            exp = expected_args(good["args"], 0)
+            seen = [c[2] for c in w.calls if c[0] == "d%d" % ti]
+            mm = [] if (isinstance(resp, dict) and not resp.get("errors") and len(seen) == 2 and all(render.strict_eq(a, exp) for a in seen)) else \
+                ["schema-default twice in one request: resolvers saw %r, expected twice %r (%r)" % (seen, exp, resp)]
+            flag({"type": ty, "ti": ti}, "schema-default-twice", q2, None, mm, resp)
         # omitted
         q = "{ s %s }" % f
         resp = w.run(q)
@@ -215,6 +230,20 @@ def job(j):
             mm = [] if (isinstance(resp, dict) and not resp.get("errors") and len(w.dcalls) == 1 and render.strict_eq(w.dcalls[0][1], exp)) \
                 else ["directive variable: hook saw %r, expected %r (%r)" % (w.dcalls, exp, resp)]
             flag(rec, "directive-variable", q, {"a": v_py}, mm, resp)
+        # -- through a variable / a variable default of a subscription: the source stream and the per-event resolver of the
+        #    root field both receive the coerced value
+        if not rec["refused"]:
+            for q, vs, way in (("subscription ($a: %s) { u%d(a: $a) }" % (tys, ti), {"a": v_py}, "subscription-variable"),
+                               ("subscription ($a: %s = %s) { u%d(a: $a) }" % (tys, lit_text(rec["lit"], k), ti), {}, "subscription-variable-default")):
+                if way.endswith("default") and rec["v"]["t"] == "N":
+                    continue
+                resp = w.run_sub(q, vs)
+                st["n"] += 1
+                exp = expected_args(rec["argsVar"], k)
+                src = [c[2] for c in w.calls if c[0] == "u%d-source" % ti]
+                per = [c[2] for c in w.calls if c[0] == "u%d" % ti]
+                ok = isinstance(resp, dict) and not resp.get("errors") and len(src) == 1 and len(per) == 1 and render.strict_eq(src[0], exp) and render.strict_eq(per[0], exp)
+                flag(rec, way, q, vs, [] if ok else ["%s: source saw %r, event resolver saw %r, expected %r (%r)" % (way, src, per, exp, resp)], resp)
         # -- as the default value of a variable that is not provided
         if rec["v"]["t"] != "N":
             q = "query ($a: %s = %s) { s %s(a: $a) }" % (tys, lit_text(rec["lit"], k), f)
